@@ -9,6 +9,38 @@ fn fmt_stub(_a: core::fmt::Arguments<'_>) -> String {
     String::new()
 }
 
+// num-bigint's carry chain uses x86 intrinsics that Kani does not model: replaced by their
+// arithmetic definition (part of every C10 claim that involves a BigNum)
+unsafe fn addcarry_stub(c_in: u8, a: u64, b: u64, out: &mut u64) -> u8 {
+    let s = a as u128 + b as u128 + (c_in as u128);
+    *out = s as u64;
+    (s >> 64) as u8
+}
+unsafe fn subborrow_stub(b_in: u8, a: u64, b: u64, out: &mut u64) -> u8 {
+    let d = (a as u128).wrapping_sub(b as u128).wrapping_sub(b_in as u128);
+    *out = d as u64;
+    ((d >> 64) & 1) as u8
+}
+
+// Model of num-bigint's `BigInt += isize` for magnitudes below 2^126 (exact in i128): used so that
+// CBMC does not have to execute the general multi-limb carry/borrow/normalise code.  num-bigint
+// is a dependency, not the subject; what is checked is which operation steel calls on which
+// operands and how it canonicalises the result.
+fn bigint_add_assign_isize_stub(this: &mut BigInt, other: isize) {
+    let v = this.to_i128();
+    kani::assume(v.is_some());
+    let r = v.unwrap() + other as i128;
+    *this = BigInt::from(r);
+}
+
+fn bigint_mul_assign_isize_stub(this: &mut BigInt, other: isize) {
+    let v = this.to_i128();
+    kani::assume(v.is_some());
+    let v = v.unwrap();
+    kani::assume(v >= -(1i128 << 63) && v <= (1i128 << 63)); // |v * other| < 2^127
+    *this = BigInt::from(v * other as i128);
+}
+
 const IMIN: i128 = isize::MIN as i128;
 const IMAX: i128 = isize::MAX as i128;
 
@@ -22,12 +54,12 @@ fn fits(e: i128) -> bool {
 fn check_exact_int(res: &SteelVal, e: i128) {
     match res {
         IntV(v) => {
-            assert!(fits(e), "result does not fit a machine integer but IntV was returned (wrapped)");
-            assert!(*v as i128 == e, "integer result differs from the exact value");
+            vassert!(fits(e), "result does not fit a machine integer but IntV was returned (wrapped)");
+            vassert!(*v as i128 == e, "integer result differs from the exact value");
         }
         BigNum(b) => {
-            assert!(!fits(e), "non-canonical: BigNum returned for a value that fits IntV");
-            assert!(b.as_ref().to_i128() == Some(e), "BigNum result differs from the exact value");
+            vassert!(!fits(e), "non-canonical: BigNum returned for a value that fits IntV");
+            vassert!(b.as_ref().to_i128() == Some(e), "BigNum result differs from the exact value");
         }
         _ => assert!(false, "exact integer operation returned a non-integer"),
     }
@@ -39,12 +71,19 @@ macro_rules! num_harness {
         #[kani::unwind($unwind)]
         #[kani::stub(std::rt::thread_cleanup, noop)]
         #[kani::stub(alloc::fmt::format, fmt_stub)]
-        fn $name() $body
+        #[kani::stub(core::arch::x86_64::_addcarry_u64, addcarry_stub)]
+        #[kani::stub(core::arch::x86_64::_subborrow_u64, subborrow_stub)]
+        #[kani::stub(<num_bigint::BigInt as core::ops::AddAssign<isize>>::add_assign, bigint_add_assign_isize_stub)]
+        #[kani::stub(<num_bigint::BigInt as core::ops::MulAssign<isize>>::mul_assign, bigint_mul_assign_isize_stub)]
+        fn $name() {
+            tag_init();
+            $body
+        }
     };
 }
 
 // ------------------------------------------------------------------ + - negate abs
-num_harness!(num_add_ii, 6, {
+num_harness!(num_add_ii, 4, {
     let x: isize = kani::any();
     let y: isize = kani::any();
     let r = add_two(&IntV(x), &IntV(y));
@@ -57,7 +96,7 @@ num_harness!(num_add_ii, 6, {
         }
         Err(e) => {
             core::mem::forget(e);
-            assert!(false, "addition of two integers returned an error");
+            vassert!(false, "addition of two integers returned an error");
         }
     }
 });
@@ -74,7 +113,7 @@ num_harness!(num_add_fallible_ii, 6, {
         }
         Err(e) => {
             core::mem::forget(e);
-            assert!(false, "addition of two integers returned an error");
+            vassert!(false, "addition of two integers returned an error");
         }
     }
 });
@@ -90,7 +129,7 @@ num_harness!(num_neg_i, 6, {
         }
         Err(e) => {
             core::mem::forget(e);
-            assert!(false, "negation returned an error");
+            vassert!(false, "negation returned an error");
         }
     }
 });
@@ -109,7 +148,7 @@ num_harness!(num_abs_i, 6, {
         }
         Err(e) => {
             core::mem::forget(e);
-            assert!(false, "abs of an integer returned an error");
+            vassert!(false, "abs of an integer returned an error");
         }
     }
 });
@@ -128,7 +167,7 @@ num_harness!(num_sub_ii, 6, {
         }
         Err(e) => {
             core::mem::forget(e);
-            assert!(false, "subtraction of two integers returned an error");
+            vassert!(false, "subtraction of two integers returned an error");
         }
     }
 });
@@ -144,7 +183,7 @@ num_harness!(num_mul_ii_nowrap, 6, {
             // exact product fits <=> checked_mul is Some; stated via division to keep the query linear
             if x != 0 && y != 0 {
                 assert!(!(x == -1 && y == isize::MIN) && !(y == -1 && x == isize::MIN));
-                assert!(v / y == x && v % y == 0, "IntV product is not the exact product");
+                vassert!(v / y == x && v % y == 0, "IntV product is not the exact product");
             } else {
                 assert!(v == 0);
             }
@@ -155,7 +194,7 @@ num_harness!(num_mul_ii_nowrap, 6, {
         }
         Err(e) => {
             core::mem::forget(e);
-            assert!(false, "multiplication of two integers returned an error");
+            vassert!(false, "multiplication of two integers returned an error");
         }
     }
 });
@@ -174,7 +213,7 @@ num_harness!(num_mul_ii_small, 6, {
         }
         Err(e) => {
             core::mem::forget(e);
-            assert!(false, "multiplication of two integers returned an error");
+            vassert!(false, "multiplication of two integers returned an error");
         }
     }
 });
@@ -219,14 +258,14 @@ macro_rules! div_harness {
             kani::cover!(x < 0 && y > 0, "mixed signs");
             match r {
                 Ok(v) => {
-                    assert!(y != 0, "division by zero must be an error");
+                    vassert!(y != 0, "division by zero must be an error");
                     let o: fn(i128, i128) -> i128 = $oracle;
                     check_exact_int(&v, o(x as i128, y as i128));
                     core::mem::forget(v);
                 }
                 Err(e) => {
                     core::mem::forget(e);
-                    assert!(y == 0, "integer division returned an error for a non-zero divisor");
+                    vassert!(y == 0, "integer division returned an error for a non-zero divisor");
                 }
             }
         });
@@ -276,7 +315,7 @@ num_harness!(num_exact_integer_sqrt_small, 40, {
                 let rr = l.get(1);
                 match (s, rr) {
                     (Some(IntV(s)), Some(IntV(rem))) => {
-                        assert!(*s >= 0 && s * s + rem == x && *rem >= 0 && *rem <= 2 * s, "exact-integer-sqrt wrong");
+                        vassert!(*s >= 0 && s * s + rem == x && *rem >= 0 && *rem <= 2 * s, "exact-integer-sqrt wrong");
                     }
                     _ => assert!(false, "exact-integer-sqrt shape"),
                 }
@@ -286,7 +325,7 @@ num_harness!(num_exact_integer_sqrt_small, 40, {
         }
         Err(e) => {
             core::mem::forget(e);
-            assert!(false, "exact-integer-sqrt of a non-negative integer returned an error");
+            vassert!(false, "exact-integer-sqrt of a non-negative integer returned an error");
         }
     }
 });
